@@ -246,6 +246,45 @@ def filtered_copy(f, src, frag, allowed):
     return st_(frag[0]), st_(frag[1])
 
 
+def product_copy(f, n1, fr1, n2, fr2):
+    """intersection of two fragments (of two scratch NFAs) built into f.a"""
+    def closure(n, x):
+        out, stack = {x}, [x]
+        while stack:
+            y = stack.pop()
+            for z in n.eps.get(y, ()):
+                if z not in out:
+                    out.add(z)
+                    stack.append(z)
+        return out
+    m = {}
+
+    def st_(k):
+        if k not in m:
+            m[k] = f.a.new()
+        return m[k]
+    end = f.a.new()
+    start = (fr1[0], fr2[0])
+    seen, stack = set(), [start]
+    while stack:
+        k = stack.pop()
+        if k in seen:
+            continue
+        seen.add(k)
+        c1, c2 = closure(n1, k[0]), closure(n2, k[1])
+        if fr1[1] in c1 and fr2[1] in c2:
+            f.a.add_eps(st_(k), end)
+        for x in c1:
+            for (b1, y1) in n1.edges.get(x, ()):
+                for z in c2:
+                    for (b2, y2) in n2.edges.get(z, ()):
+                        lab = b1 & b2
+                        if lab:
+                            f.a.add(st_(k), lab, st_((y1, y2)))
+                            stack.append((y1, y2))
+    return st_(start), end
+
+
 def path_fragment(f, chain, in_sub=False):
     """NFA fragment of one success path; take_until elements must be followed by their delimiter"""
     frs = []
@@ -259,16 +298,21 @@ def path_fragment(f, chain, in_sub=False):
                 if nxt is None or nxt.kind != "tag" or nxt.param[:1] != el.param:
                     raise Unanalysable("take_until(%r) not followed by its delimiter" % (el.param,))
                 allowed = frozenset(ALL - set(el.param))
-                if el.hi is not None:
-                    raise Unanalysable("bounded capture with a sub-parse")
             else:
-                raise Unanalysable("fixed-length capture with a sub-parse")
+                allowed = frozenset(ALL)
             tmp = NFA()
             tf = Frag(tmp)
             subfr = path_fragment(tf, sub, True)
             if not el.sub_full:
                 subfr = tf.seq(subfr, tf.star(ALL))
-            frs.append(filtered_copy(f, tmp, subfr, allowed))
+            if el.hi is not None or el.lo:
+                # the capture's own length bounds: intersect with class{lo,hi}
+                tmp2 = NFA()
+                tf2 = Frag(tmp2)
+                bound = tf2.repeat(allowed, el.lo, el.hi)
+                frs.append(product_copy(f, tmp, subfr, tmp2, bound))
+            else:
+                frs.append(filtered_copy(f, tmp, subfr, allowed))
             continue
         if k == "tag":
             frs.append(f.lit(el.param))
